@@ -55,23 +55,59 @@ deriving Repr
 
 def batchOf (h : Hist) (id : Nat) : List Row := h.batches.getD id []
 
-/-- recovery: replay order of the surviving records. -/
+/-- cells of a list of batches, newest first. -/
+def histOf (bs : List (List Row)) : List Cell := (bs.reverse.map batchCells).flatten
+
+def insertById (x : Nat × Nat) : List (Nat × Nat) → List (Nat × Nat)
+  | [] => [x]
+  | y :: ys => if x.2 ≤ y.2 then x :: y :: ys else y :: insertById x ys
+
+/-- the surviving records in write order (ids ascend inside every partition, so this keeps
+each partition's file order). -/
+def sortById (xs : List (Nat × Nat)) : List (Nat × Nat) := xs.foldr insertById []
+
+/-- recovery: the order in which the surviving records are replayed (`consumeRecordSerial`). -/
 def replayOrder (n : Nat) (d : Durable) : List Nat :=
-  let recs : List (Nat × List Row) := d.wal.map fun (p, id) => (p, [⟨id, 0, []⟩])
-  -- reuse C02.roundRobin on records tagged with their id
+  let recs : List (Nat × List Row) := (sortById d.wal).map fun (p, id) => (p, [⟨id, 0, []⟩])
   (roundRobin n (recs.length + 1) recs).map fun b => match b with
     | [r] => r.s
     | _ => 0
 
-/-- cells a reader consults after recovery, in precedence order. -/
-def recoveredCells (h : Hist) (d : Durable) : List Cell :=
-  let replay := (replayOrder h.st.nParts d).map (batchOf h)
-  let mem := (replay.reverse.map batchCells).flatten
+def fileCells (h : Hist) (d : Durable) : List Cell :=
   let visOOO := h.gens.filter fun g => d.vis.contains (g.no, false)
   let visOrd := h.gens.filter fun g => d.vis.contains (g.no, true)
-  mem ++ (visOOO.map (·.ooo)).flatten ++ (visOrd.map (·.ordered)).flatten
+  (visOOO.map (·.ooo)).flatten ++ (visOrd.map (·.ordered)).flatten
+
+/-- cells a reader consults after recovery, in precedence order: the replayed memtable, then
+the visible out-of-order files (newest first), then the visible ordered files. -/
+def recoveredCells (h : Hist) (d : Durable) : List Cell :=
+  histOf ((replayOrder h.st.nParts d).map (batchOf h)) ++ fileCells h d
 
 def recoveredRead (h : Hist) (d : Durable) (fields : List String) :=
   readCells (recoveredCells h d) (-1000000) 1000000 true fields
+
+/-- both files of a generation are visible (an empty part has no file). -/
+def fullGen (d : Durable) (g : Gen) : Bool :=
+  (g.ordered.isEmpty || d.vis.contains (g.no, true)) && (g.ooo.isEmpty || d.vis.contains (g.no, false))
+
+/-- the decidable condition under which recovery is exact (see `OG.C01.recover_exact`):
+the replayed records are a run `w, w+1, …, m-1` of batch ids in write order, every generation
+that holds a batch below `w` is completely visible, and no generation reaches beyond `m`. It
+fails exactly in the two windows of a flush described in DESIGN.md (records of a visible
+generation surviving in part; old and new records interleaved by the round-robin). -/
+def safeDurable (h : Hist) (d : Durable) : Bool :=
+  match replayOrder h.st.nParts d with
+  | [] => h.gens.all (fullGen d)
+  | w :: rest =>
+    let m := w + (rest.length + 1)
+    (w :: rest) == List.range' w (rest.length + 1)
+      && decide (w ≤ h.flushedTo) && decide (m ≤ h.batches.length)
+      && h.gens.all (fun g => decide (g.hi ≤ m) && (decide (w ≤ g.lo) || fullGen d g))
+
+/-- number of batches the recovered state stands for. -/
+def durableCount (h : Hist) (d : Durable) : Nat :=
+  match replayOrder h.st.nParts d with
+  | [] => h.flushedTo
+  | w :: rest => w + (rest.length + 1)
 
 end OG.C01
